@@ -13,7 +13,7 @@ const CFG_COMMENTS = cfg({ methods: STRING_METHODS, verbosity: 'OFF', comments: 
 
 // directories of the rewritten files: plain, nested, non-ASCII, blanks and brackets, characters that are special in
 // String.prototype.replace replacement patterns or in regular expressions
-const DIRS = ['app', 'lib/deep', 'ñ', 'app', 'with space (1)', 'a$&b', "q$'q$$", 'r[e]g.ex+', 'node_modules/@scope/pkg/dist']
+const DIRS = ['app', 'ROOT', 'lib/deep', 'ñ', 'app', 'with space (1)', 'a$&b', "q$'q$$", 'r[e]g.ex+', 'node_modules/@scope/pkg/dist']
 
 // ---- generated module with throw sites on known lines -----------------------------------------------------
 function genModule (rng, opts = {}) {
@@ -81,7 +81,74 @@ function genModule (rng, opts = {}) {
     sites.colzero = { lo: c0lo, hi: c0hi, fn: 'siteColumnZero', args: ['"z"'], ctor: 'TypeError', returned: true }
     add('  return e')
     add('}')
-    add(`Object.assign(exports, { siteThrow, siteNull, siteHook, siteEval, siteNested, siteColumnZero${opts.multilineMessage ? ', siteMultiline' : ''} })`)
+    // call chains broken over several lines: V8 reports the call at the method name, not at the start of the expression
+    add(`function userObj() { return { concat (x) { throw new RangeError('user-concat-${id} ' + x) }, trim () { return this }, toString () { throw new RangeError('user-tostring-${id}') }, boom () { throw new RangeError('user-boom-${id}') }, get prop () { throw new RangeError('user-getter-${id}') } } }`)
+    add('function siteChain(b, p) {')
+    const chlo = add('  return b')
+    const chhi = add('    .concat(p)')
+    sites.chain = { lo: chlo, hi: chhi, fn: 'siteChain', mkArgs: 'userObj', ctor: 'RangeError' }
+    add('}')
+    add('function siteChainLong(b, p) {')
+    const cllo = add(`  const r${id} = p +`)
+    add('    b')
+    add('      .trim()')
+    const clhi = add('      .concat(p)')
+    sites.chainlong = { lo: cllo, hi: clhi, fn: 'siteChainLong', mkArgs: 'userObj', ctor: 'RangeError' }
+    add(`  return r${id}`)
+    add('}')
+    add('function siteProtoCall(b, p) {')
+    const pclo = add('  return String.prototype.concat')
+    add('    .call(')
+    const pchi = add('      b, p)')
+    sites.protocall = { lo: pclo, hi: pchi, fn: 'siteProtoCall', mkArgs: 'userObj', ctor: 'RangeError' }
+    add('}')
+    add('function siteOptChain(b, p) {')
+    const oclo = add('  return b')
+    add('    ?.trim()')
+    const ochi = add('    .concat(p)')
+    sites.optchain = { lo: oclo, hi: ochi, fn: 'siteOptChain', mkArgs: 'userObj', ctor: 'RangeError' }
+    add('}')
+    // implicit coercions (toString of an operand that throws) on statements broken over several lines
+    add('function sitePlusCoerce(b, p) {')
+    const pplo = add(`  const r${id} = p +`)
+    const pphi = add('    b')
+    sites.pluscoerce = { lo: pplo, hi: pphi, fn: 'sitePlusCoerce', mkArgs: 'userObj', ctor: 'RangeError' }
+    add(`  return r${id}`)
+    add('}')
+    add('function siteTplCoerce(b, p) {')
+    const tclo = add('  return `${p}')
+    add('   ${')
+    const tchi = add('     b}`')
+    sites.tplcoerce = { lo: tclo, hi: tchi, fn: 'siteTplCoerce', mkArgs: 'userObj', ctor: 'RangeError' }
+    add('}')
+    add('function siteAddAssignCoerce(b, p) {')
+    add('  let acc = p')
+    const aalo = add('  acc +=')
+    const aahi = add('    b')
+    sites.addassigncoerce = { lo: aalo, hi: aahi, fn: 'siteAddAssignCoerce', mkArgs: 'userObj', ctor: 'RangeError' }
+    add('  return acc')
+    add('}')
+    add('function siteArgCall(b, p) {')
+    const aclo = add('  return p.concat(p,')
+    const achi = add('    b.boom())')
+    sites.argcall = { lo: aclo, hi: achi, fn: 'siteArgCall', mkArgs: 'userObj', ctor: 'RangeError' }
+    add('}')
+    add('function siteCallback(b, p) {')
+    const cblo = add('  return p')
+    add("    .replace('p', function cb () {")
+    add('      return b.boom()')
+    add('    })')
+    const cbhi = add('    .trim()')
+    sites.callback = { lo: cblo, hi: cbhi, fn: 'siteCallback', mkArgs: 'userObj', ctor: 'RangeError' }
+    add('}')
+    add('function siteGetterArg(b, p) {')
+    const galo = add('  return (p +')
+    add('    p).concat(')
+    const gahi = add('    b.prop)')
+    sites.getterarg = { lo: galo, hi: gahi, fn: 'siteGetterArg', mkArgs: 'userObj', ctor: 'RangeError' }
+    add('}')
+    add(`Object.assign(exports, { sitePlusCoerce, siteTplCoerce, siteAddAssignCoerce, siteArgCall, siteCallback, siteGetterArg })`)
+    add(`Object.assign(exports, { userObj, siteChain, siteChainLong, siteProtoCall, siteOptChain, siteThrow, siteNull, siteHook, siteEval, siteNested, siteColumnZero${opts.multilineMessage ? ', siteMultiline' : ''} })`)
   } else {
     // nothing to instrument: the rewriter reports notmodified and the package must not translate anything
     add('function siteThrow(a, b) {')
@@ -99,14 +166,15 @@ function genModule (rng, opts = {}) {
     // pre-transpilation map: input line l (0-based) -> orig.ts line 100 + l; tokens at column 0 and at a few other columns
     const tokens = []
     L.forEach((line, l) => { tokens.push({ genLine: l, genCol: 0, src: 0, srcLine: 100 + l, srcCol: 0 }); for (const c of [2, 8, 17]) if (c < line.length) tokens.push({ genLine: l, genCol: c, src: 0, srcLine: 100 + l, srcCol: c + 1 }) })
-    orig = { version: 3, sources: ['orig.ts'], names: [], mappings: S.encodeMappings(tokens) }
+    // the pre-transpilation source is named relative to the file, or (ts-node, babel with absolute sourceFileName) absolutely
+    orig = { version: 3, sources: [opts.absoluteSource ? '/abs/src-' + id + '/orig.ts' : 'orig.ts'], names: [], mappings: S.encodeMappings(tokens) }
     code += '//# sourceMappingURL=data:application/json;base64,' + Buffer.from(JSON.stringify(orig)).toString('base64') + '\n'
   }
-  return { code, sites, id, chain: !!opts.chain }
+  return { code, sites, id, chain: !!opts.chain, origSource: orig ? orig.sources[0] : null }
 }
 
 function expectedFor (mod, file, site) {
-  if (mod.chain) return { path: path.join(path.dirname(file), 'orig.ts'), lo: site.lo + 100, hi: site.hi + 100 }
+  if (mod.chain) { const src = mod.origSource || 'orig.ts'; return { path: path.isAbsolute(src) ? src : path.join(path.dirname(file), src), lo: site.lo + 100, hi: site.hi + 100 } }
   return { path: file, lo: site.lo, hi: site.hi }
 }
 
@@ -119,9 +187,29 @@ function collectErrors (exportsObj, mod) {
   const errs = {}
   for (const [name, s] of Object.entries(mod.sites)) {
     if (s.top) { errs[name] = exportsObj.topError; continue }
-    try { const ret = exportsObj[s.fn](...s.args.map(a => JSON.parse(a.replace(/^"(.*)"$/, (m, x) => JSON.stringify(x))))); errs[name] = s.returned ? ret : null } catch (e) { errs[name] = e }
+    const args = s.mkArgs ? [exportsObj[s.mkArgs](), 'p'] : s.args.map(a => JSON.parse(a.replace(/^"(.*)"$/, (m, x) => JSON.stringify(x))))
+    try { const ret = exportsObj[s.fn](...args); errs[name] = s.returned ? ret : null } catch (e) { errs[name] = e }
   }
   return errs
+}
+
+// lines V8 itself reports for the frames of `file` when the ORIGINAL module runs under that name (one list per site)
+function originalFrames (mod, file) {
+  const out = {}
+  const saved = Error.prepareStackTrace
+  try {
+    Error.prepareStackTrace = undefined
+    let ex
+    try { ex = P.compileAs(mod.code, file) } catch (e) { return out }
+    const errs = collectErrors(ex, mod)
+    for (const [name, site] of Object.entries(mod.sites)) {
+      const err = errs[name]
+      if (!err || site.evalFrame || name === 'hook' || err.constructor.name !== site.ctor) continue
+      Error.prepareStackTrace = (e, cs) => cs.filter(c => c.getFileName() === file && !c.isEval()).map(c => ({ fn: c.getFunctionName(), line: c.getLineNumber() }))
+      try { const v = err.stack; if (Array.isArray(v)) out[name] = v } catch (e) {} finally { Error.prepareStackTrace = undefined }
+    }
+  } finally { Error.prepareStackTrace = saved }
+  return out
 }
 
 function checkModule (pkg, mod, file, resp, push, counters) {
@@ -135,6 +223,8 @@ function checkModule (pkg, mod, file, resp, push, counters) {
     Error.prepareStackTrace = undefined
     Error.stackTraceLimit = 30
     installHooks()
+    const origFrames = originalFrames(mod, file)
+    const lineShift = mod.chain ? 100 : 0
     let ex
     try { ex = P.compileAs(resp.content, file) } catch (e) { push('rewritten-module-failed-to-load', `running the rewritten module threw: ${e && e.message}`); return results }
     for (const handlerPath of ['wrap-user-handler', 'format-string', 'format-string', 'wrap-user-handler']) {
@@ -166,11 +256,24 @@ function checkModule (pkg, mod, file, resp, push, counters) {
           if (!Array.isArray(stackValue)) { push('handler-not-called', 'user handler result was not returned'); continue }
           const own = stackValue.filter(f => f.raw && f.raw.file === file)
           if (!own.length && !site.evalFrame) { push('no-frame-of-rewritten-file', `site ${name}: no frame of ${file} in the structured stack`); continue }
-          const f = own[site.frame ? 0 : 0]
+          // sites whose error is raised inside a helper of the same file (mkArgs) have that helper's frame first: the
+          // differential comparison below decides them
+          const f = site.mkArgs ? null : own[0]
           if (f) {
             counters.frames++
             if (f.file !== exp.path) push('wrong-path', `site ${name} [${handlerPath}]: translated path ${f.file}, expected ${exp.path}`)
             if (!(f.line >= exp.lo && f.line <= exp.hi)) push('wrong-line', `site ${name} [${handlerPath}]: rewritten line ${f.raw.line} translated to ${f.line}, the statement is on original line(s) ${exp.lo}-${exp.hi}`)
+          }
+          // every frame of the rewritten file carries the line V8 reports for the same frame when the original runs
+          const of = origFrames[name]
+          if (of && own.length) {
+            if (of.length !== own.length) push('frame-count-differs-from-original', `site ${name}: ${own.length} frames of the rewritten file, ${of.length} when the original runs`)
+            else {
+              for (let fi = 0; fi < of.length; fi++) {
+                counters.framesDiff = (counters.framesDiff || 0) + 1
+                if (own[fi].line !== of[fi].line + lineShift || own[fi].file !== exp.path) { push('frame-line-differs-from-original:' + name, `site ${name} [${handlerPath}]: frame #${fi} (${of[fi].fn}) of the rewritten file is reported at ${own[fi].file}:${own[fi].line}; V8 reports line ${of[fi].line}${lineShift ? ' (+' + lineShift + ' through the chained map)' : ''} for it when the original runs`); break }
+              }
+            }
           }
           // frames of files the package knows nothing about are unchanged
           for (const fr of stackValue) if (fr.raw && fr.raw.file !== file && (fr.file !== fr.raw.file || fr.line !== fr.raw.line)) { push('foreign-frame-changed', `frame of ${fr.raw.file}:${fr.raw.line} became ${fr.file}:${fr.line}`); break }
@@ -184,7 +287,18 @@ function checkModule (pkg, mod, file, resp, push, counters) {
           const m = new RegExp(esc + ':(\\d+):(\\d+)').exec(first)
           counters.frames++
           if (!m) push('wrong-path', `site ${name} [${handlerPath}]: frame \`${first.trim()}\` does not mention the original path ${exp.path}`)
-          else if (!(+m[1] >= exp.lo && +m[1] <= exp.hi)) push('wrong-line', `site ${name} [${handlerPath}]: frame \`${first.trim()}\` reports line ${m[1]}, the statement is on original line(s) ${exp.lo}-${exp.hi}`)
+          else if (!site.mkArgs && !(+m[1] >= exp.lo && +m[1] <= exp.hi)) push('wrong-line', `site ${name} [${handlerPath}]: frame \`${first.trim()}\` reports line ${m[1]}, the statement is on original line(s) ${exp.lo}-${exp.hi}`)
+          const of2 = origFrames[name]
+          if (of2 && m) {
+            const re = new RegExp(esc + ':(\\d+):(\\d+)')
+            const mineLines = lines.map(l => re.exec(l)).filter(Boolean).map(x => +x[1])
+            if (mineLines.length === of2.length) {
+              for (let fi = 0; fi < of2.length; fi++) {
+                counters.framesDiff = (counters.framesDiff || 0) + 1
+                if (mineLines[fi] !== of2[fi].line + lineShift) { push('frame-line-differs-from-original:' + name, `site ${name} [${handlerPath}]: frame #${fi} (${of2[fi].fn}) is printed with line ${mineLines[fi]}; V8 reports line ${of2[fi].line}${lineShift ? ' (+' + lineShift + ' through the chained map)' : ''} for it when the original runs`); break }
+              }
+            } else push('frame-count-differs-from-original', `site ${name} [${handlerPath}]: ${mineLines.length} printed frames mention ${exp.path}, ${of2.length} frames when the original runs`)
+          }
           // every frame of the rewritten file (also eval frames, through their origin) must show the position an
           // independent decoder finds for it in the embedded map of the content that was cached
           if (rawSites && lines.length === rawSites.length) {
@@ -195,7 +309,7 @@ function checkModule (pkg, mod, file, resp, push, counters) {
               if (f !== file) continue
               const tok = S.lookupGlobal(mapTokens, l - 1, c - 1)
               if (!tok || tok.src === undefined) continue
-              const expPath = path.join(path.dirname(file), mapSources[tok.src])
+              const expPath = path.isAbsolute(mapSources[tok.src]) ? mapSources[tok.src] : path.join(path.dirname(file), mapSources[tok.src])
               counters.frames++
               if (!lines[fi].includes(`${expPath}:${tok.srcLine + 1}:`)) { push('frame-not-translated', `site ${name} [${handlerPath}]: frame #${fi} \`${lines[fi].trim()}\` (raw position ${l}:${c}${rs.isEval ? ', eval origin' : ''}) should read ${expPath}:${tok.srcLine + 1}`); break }
             }
@@ -231,8 +345,8 @@ function findMarker (content, marker) {
 module.exports = {
   id: 'C11',
   level: 'exploration',
-  rule: 'the repository\'s real main.js / js/source-map / js/stack-trace are loaded with the native module replaced by a shim that calls rwharness; generated CommonJS modules with throw sites on known lines (throw statement, TypeError from a null receiver inside an injected sequence on a two-line statement, a hook that throws on a marker, an error inside an eval-created frame, a nested closure, top-level code, an error whose multi-line message contains a line that reads like a frame), placed under plain, nested, non-ASCII and hostile directory names (blanks and brackets, `$&` / `$\' ` / `$$`, regex metacharacters, node_modules/@scope) with various extensions, are rewritten through the caching Rewriter, compiled under the original file name with Module.prototype._compile and run; each error\'s stack is read through both code paths of getPrepareStackTrace (wrapping a user handler; formatting V8\'s string) and the frame of the rewritten file must carry the original path and a line inside the statement\'s span (with a chained inline map: orig.ts and line+100); frames of other files unchanged; nothing throws. Real-world files: corpus files rewritten through the caching Rewriter, then 60 random positions of each rewritten text looked up through the package and compared with an independent decoder of the embedded map. On-disk lookups: getOriginalPathAndLineFromSourceMap over temporary files with inline / external / missing / invalid / absent maps, compared with an independent decoder where the lookup conventions agree (a token on the same line at or before the column). Histories: random sequences of rewrites (modified v1/v2, not modified, syntax error) over 5 file names, after each of which a lookup for every file must use the map of its most recent rewrite (positions unchanged when that rewrite was not modified). distinct_nontrivial = distinct (module, site, path) stacks plus history lookups decided.',
-  assumptions: ['eval frames are only checked through the string-formatting path (the wrapping path has no file name for them)', 'after a failed (syntax error) rewrite nothing is asserted about the file until it is rewritten again', 'lru-cache is a 12-line stand-in with get/set'],
+  rule: 'the repository\'s real main.js / js/source-map / js/stack-trace are loaded with the native module replaced by a shim that calls rwharness; generated CommonJS modules with throw sites on known lines (throw statement, TypeError from a null receiver inside an injected sequence on a two-line statement, a hook that throws on a marker, an error inside an eval-created frame, a nested closure, top-level code, an error whose multi-line message contains a line that reads like a frame, errors raised by the callee of a call chain broken over several lines: member chain, chain inside a `+`, `X.prototype.m` + `.call(` on separate lines, optional chain), placed directly under the root folder and under plain, nested, non-ASCII and hostile directory names (blanks and brackets, `$&` / `$\' ` / `$$`, regex metacharacters, node_modules/@scope) with various extensions, are rewritten through the caching Rewriter, compiled under the original file name with Module.prototype._compile and run; each error\'s stack is read through both code paths of getPrepareStackTrace (wrapping a user handler; formatting V8\'s string) and the frame of the rewritten file must carry the original path and a line inside the statement\'s span (with a chained inline map: orig.ts - named relatively or by an absolute path - and line+100); differential line oracle: the ORIGINAL module is also run under the same file name and every frame of the file must be reported, after translation, on exactly the line V8 itself reports for that frame in the original run; frames of other files unchanged; nothing throws. Real-world files: corpus files rewritten through the caching Rewriter, then 60 random positions of each rewritten text looked up through the package and compared with an independent decoder of the embedded map. On-disk lookups: getOriginalPathAndLineFromSourceMap over temporary files with inline / external / missing / invalid / absent maps, compared with an independent decoder where the lookup conventions agree (a token on the same line at or before the column). Histories: random sequences of rewrites (modified v1/v2, not modified, syntax error) over 5 file names, after each of which a lookup for every file must use the map of its most recent rewrite (positions unchanged when that rewrite was not modified or failed, i.e. when the caller serves the text as it is). distinct_nontrivial = distinct (module, site, path) stacks plus history lookups decided.',
+  assumptions: ['eval frames are only checked through the string-formatting path (the wrapping path has no file name for them)', 'the differential line oracle skips the hook-raised and eval sites (no counterpart frame in the original run)', 'lru-cache is a 12-line stand-in with get/set'],
   plan (ctx) {
     const shards = []
     const nMods = ctx.tier === 'thorough' ? 3200 : 384
@@ -257,8 +371,9 @@ module.exports = {
       for (let i = 0; i < spec.count; i++) {
         const chain = i % 3 === 2
         const markerLines = i % 8 >= 5
-        const mod = genModule(rng.fork(i), { chain, multilineMessage: i % 4 === 1, markerLines })
-        const file = `/srv/c11/${rng.pick(DIRS)}/mod_${spec.stream}_${i}${rng.pick(['.js', '.js', '.cjs', '', '.min.js'])}`
+        const mod = genModule(rng.fork(i), { chain, multilineMessage: i % 4 === 1, markerLines, absoluteSource: chain && i === 5 })
+        const dirName = rng.pick(DIRS)
+        const file = `${dirName === 'ROOT' ? '' : '/srv/c11/' + dirName}/mod_${spec.stream}_${i}${rng.pick(['.js', '.js', '.cjs', '', '.min.js'])}` // ROOT: a file directly under the file system root
         const pkg = sharedPkg
         const config = markerLines ? (chain ? CFG_CHAIN_COMMENTS : CFG_COMMENTS) : (chain ? CFG_CHAIN : CFG)
         const rw = new pkg.Rewriter(config)
@@ -266,12 +381,12 @@ module.exports = {
         try { resp = rw.rewrite(mod.code, file) } catch (e) { rep.inconclusive.push({ reason: 'rewrite-failed', detail: String(e.message).slice(0, 200) }); continue }
         const counters = { stacks: 0, frames: 0 }
         const seen = new Set()
-        const push = (kind, what) => { const sig = `sites:${kind}${chain ? ':chained' : ''}`; if (seen.has(sig)) return; seen.add(sig); rep.violations.push({ sig, what, witness: { code: mod.code, file, chain, sites: mod.sites, config } }) }
+        const push = (kind, what) => { const sig = `sites:${kind}${chain ? ':chained' : ''}`; if (seen.has(sig)) return; seen.add(sig); rep.violations.push({ sig, what, witness: { code: mod.code, file, chain, sites: mod.sites, config, origSource: mod.origSource } }) }
         if (!resp.metrics || resp.metrics.status !== 'modified') { push('not-modified', 'generated module was not modified'); continue }
         const res = checkModule(pkg, mod, file, resp, push, counters)
         rep.evaluations += Object.keys(res).length
         for (const k of Object.keys(res)) rep.distinct.push(hashStr(mod.code + k))
-        bump('stacks_read', counters.stacks); bump('frames_of_rewritten_files_checked', counters.frames); bump(chain ? 'modules_chained' : 'modules_plain')
+        bump('stacks_read', counters.stacks); bump('frames_of_rewritten_files_checked', counters.frames); bump('frames_compared_with_v8_lines_of_the_original_run', counters.framesDiff || 0); bump(chain ? 'modules_chained' : 'modules_plain')
         if (rep.samples.length < 1) rep.samples.push({ file, chained: chain, input: clip(mod.code, 900), sites: mod.sites })
       }
       return rep
@@ -281,7 +396,8 @@ module.exports = {
       const pkg = P.loadPackage()
       const rw = new pkg.Rewriter(CFG)
       for (const name of spec.items) {
-        const file = `/srv/c11corpus/${rng.pick(DIRS)}/${name}`
+        const dirName = rng.pick(DIRS)
+        const file = `${dirName === 'ROOT' ? '' : '/srv/c11corpus/' + dirName}/${name}`
         let resp
         try { resp = rw.rewrite(corpus.read(name), file) } catch (e) { bump('corpus_rewrite_errors'); continue }
         if (!resp.metrics || resp.metrics.status !== 'modified') { bump('corpus_not_modified'); continue }
@@ -381,10 +497,9 @@ module.exports = {
           const status = resp.metrics && resp.metrics.status
           if (kindV === 'modified' && status !== 'modified') { rep.inconclusive.push({ reason: 'unexpected-status', detail: String(status) }); continue }
           current.set(file, { kind: status, mod, content: resp.content })
-        } else if (kindV === 'syntax-error') current.set(file, { kind: 'failed' })
+        } else if (kindV === 'syntax-error') current.set(file, { kind: 'failed', mod, content: code }) // the caller serves the text as it is
         // after every step: lookups for every file use the map of its most recent rewrite
         for (const [f, cur] of current) {
-          if (cur.kind === 'failed') continue
           const marker = `site-throw-${cur.mod.id}`
           const pos = findMarker(cur.content, marker)
           if (!pos) { rep.inconclusive.push({ reason: 'marker-not-found', detail: f }); continue }
@@ -425,7 +540,7 @@ module.exports = {
       const rw = new pkg.Rewriter(w.config)
       const resp = rw.rewrite(w.code, w.file)
       const push = (kind, what) => violations.push({ sig: `sites:${kind}${w.chain ? ':chained' : ''}`, what })
-      checkModule(pkg, { code: w.code, sites: w.sites, chain: w.chain }, w.file, resp, push, { stacks: 0, frames: 0 })
+      checkModule(pkg, { code: w.code, sites: w.sites, chain: w.chain, origSource: w.origSource }, w.file, resp, push, { stacks: 0, frames: 0 })
     }
     return { violations }
   }
